@@ -74,6 +74,20 @@ class Ctx:
 
     def violation(self, key, what, witness):
         """key: mechanism key (str) or None when unclassified"""
+        if ("Z3Exception" in what or "Sort mismatch" in what) and not z3_sane():
+            # the Z3 context of this process no longer answers a trivial query (seen once: after an interruption inside
+            # Z3, every later query in that shard raised "Sort mismatch"). Nothing this process reports about Z3 can be
+            # believed: the case is inconclusive and the process is replaced (the supervisor restarts a shard that dies by a
+            # signal).
+            self.inconclusive("z3-context-corrupted-in-this-process")
+            self.count("z3_context_corrupted")
+            if self.out != "/dev/null":
+                try:
+                    self.dump(False, self.out + ".hb")
+                except Exception:
+                    pass
+                os.kill(os.getpid(), signal.SIGKILL)
+            return
         self.judged += 1
         k = key or "unclassified:" + what[:60]
         n = self._viol_keys.get(k, 0)
@@ -154,6 +168,21 @@ class Ctx:
         if time.time() - self._last_hb > 3:
             self._last_hb = time.time()
             self.dump(False, self.out + ".hb")
+
+
+def z3_sane():
+    """does this process's Z3 still answer a trivial, well-sorted query correctly?"""
+    try:
+        import z3
+        s = z3.Solver()
+        s.set("timeout", 2000)
+        x = z3.String("islamon_sanity_x")
+        s.add(z3.InRe(x, z3.Re("ab")), z3.Length(x) == 2)
+        if s.check() != z3.sat:
+            return False
+        return z3.is_true(z3.simplify(z3.InRe(z3.StringVal("ab"), z3.Re("ab"))))
+    except Exception:
+        return False
 
 
 def exc_site(e):
